@@ -24,17 +24,21 @@ Theorem c08_flags_exact : forall ri wi, enumerate_rsn ri = s_rsn_flags ri /\ enu
 Proof. exact flags_exact. Qed.
 Print Assumptions c08_flags_exact.
 
-(* decoded fields equal the element's bytes; too short for its own counts -> refused; every read of the
-   decoder stays inside the element (rd is arbitrary outside buf, and the slice is the element) *)
+(* decoded fields equal the element's bytes; too short for the mandatory fields or for its own counts -> refused;
+   every read of the decoder stays inside the element (rd is arbitrary outside buf, and the slice is the element).
+   There is no lower bound on len: an element shorter than version + group suite is refused before any read (F45),
+   and one that ends after the group suite or after the pairwise list decodes with the rest empty (F46). *)
 Theorem c08_rsn_decode_exact : forall buf rd base len, wfbytes buf -> agrees rd buf ->
-  0 <= base -> 6 <= len -> base + len <= zlen buf ->
+  0 <= base -> 0 <= len -> base + len <= zlen buf ->
   get_rsn_info rd base (base + len) =
     Done (match s_rsn_decode (slice base len buf) with Some i => Ok i | None => Err (- EINVAL) end).
 Proof. exact rsn_decode_exact. Qed.
 Print Assumptions c08_rsn_decode_exact.
 
+(* the element body starts with the 4-octet vendor header (OUI, type); the decoder is handed what follows it.  Also
+   for len < 4, where base + 4 lies behind the element's end: refused before any read *)
 Theorem c08_wpa_decode_exact : forall buf rd base len, wfbytes buf -> agrees rd buf ->
-  0 <= base -> 10 <= len -> base + len <= zlen buf ->
+  0 <= base -> 0 <= len -> base + len <= zlen buf ->
   get_wpa_info rd (base + 4) (base + len) =
     Done (match s_wpa_decode (slice base len buf) with Some i => Ok i | None => Err (- EINVAL) end).
 Proof. exact wpa_decode_exact. Qed.
